@@ -7,11 +7,13 @@
    entity world reactor, add attaches the datum and registers the entity-scoped triggers, a run caused by entity e is
    shown exactly the datum stored for e, remove revokes and then cleans each named entity once, and the cleanup removes
    the datum of (reactor, e) exactly when e holds no handle of the reactor's system any more, leaving every other datum.
+   Proved for whole runs (closed invariant): in every reachable state local data sits on live entities only — the body's
+   own increment writes the datum of a live reacting entity, despawning an entity removes its data.
    NOT proved: the frame over whole runs (no other step changes a datum except the body's own increment and the
    despawn of the entity) — correspondence (xw profile: the set of (reactor, entity) data compared after every op, the
    datum compared at every run) only. *)
 From Cobweb Require Import Machine.
-From CobwebProofs Require Import TablesSpec RunnerInv WorldReactorSpec.
+From CobwebProofs Require Import TablesSpec RunnerInv WorldReactorSpec XInvSpec.
 
 Theorem world_reactor_add_registers_its_single_system_partial : forall (P : program) o wr b s w, alookup wr (p_wr P) = Some s ->
   act P o (AWrAdd wr b) w = (w, [CMark o; CRegister (map (resolve_trigger w) b) s Persistent]).
@@ -26,6 +28,12 @@ Theorem removing_triggers_despawns_nothing_partial : forall s ts w,
   storage (revoke_all s ts w) = storage w /\ alive (revoke_all s ts w) = alive w.
 Proof. exact revoke_despawns_nothing. Qed.
 
+Theorem local_data_only_on_live_entities : forall (P : program) (fuel : nat) (w' : world), run P fuel = Ok w' ->
+  forall x e v, alookup2 x e (xlocals w') = Some v -> is_alive e w' = true.
+Proof. exact XInvSpec.local_data_only_on_live_entities. Qed.
+Theorem local_data_invariant_everywhere : forall (P : program) (fuel : nat) (i : instr) (w w' : world),
+  XInv w -> exec P fuel i w = Ok w' -> XInv w'.
+Proof. exact XInv_exec. Qed.
 Theorem entity_reactor_add_partial : forall (P : program) x e v s shape w, alookup x (p_xr P) = Some (s, shape) -> is_alive e w = true ->
   apply_prim P (CXAdd x e v) w = (w, [CXInsertLocal x e v; CRegister (map (fun k => xshape_trigger k e) shape) s Persistent]).
 Proof. exact x_add. Qed.
@@ -71,6 +79,8 @@ Print Assumptions world_reactor_add_registers_its_single_system_partial.
 Print Assumptions world_reactor_remove_revokes_partial.
 Print Assumptions persistent_registration_spawns_and_collects_nothing_partial.
 Print Assumptions removing_triggers_despawns_nothing_partial.
+Print Assumptions local_data_only_on_live_entities.
+Print Assumptions local_data_invariant_everywhere.
 Print Assumptions entity_reactor_add_partial.
 Print Assumptions local_data_attached_partial.
 Print Assumptions run_sees_the_data_of_its_entity_partial.
